@@ -26,8 +26,24 @@ def families(tier):
     yield "real corpora + single-token-edit neighbourhoods", spaces.corpus_files(True, None if tier == "thorough" else 120_000)
 
 
+def _interleave(bad, good):
+    """bad, good: lists of (cfg, bytes, label) - one unreadable file after every three readable ones, so that trees hold both kinds in every
+    relative order the file system may list them in"""
+    out = []
+    bi = 0
+    for i, g in enumerate(good):
+        out.append(g)
+        if i % 3 == 2:
+            out.append(bad[bi % len(bad)])
+            bi += 1
+    return out
+
+
 def run(tier, v):
-    fams = list(families(tier)) + [("files that are not valid UTF-8 (9 byte patterns x 6 places) and contain unreferenced statements", spaces.invalid_utf8_files())]
+    import itertools
+    fams = list(families(tier)) + [("files that are not valid UTF-8 (9 byte patterns x 6 places) and contain unreferenced statements", spaces.invalid_utf8_files()),
+                                   ("trees mixing unreadable (invalid UTF-8) files with readable ones: invalid files interleaved with statement-kind tuples",
+                                    _interleave(list(spaces.invalid_utf8_files()), [(c, t.encode("utf-8"), l) for c, t, l in spaces.statement_kind_tuples(2)]))]
     for name, it in fams:
         cases = list(it)
         if cases and isinstance(cases[0][1], bytes):
